@@ -28,6 +28,7 @@ Definition v_cmd (c : dcmd) : val :=
   | CUnlink p => VL [VN 4; v_path p]
   | CRead p => VL [VN 5; v_path p]
   | CListdir => VL [VN 6]
+  | CClose t => VL [VN 7; VN t]
   end.
 
 Definition v_fs (s : fs) : val := VL (map (fun pb => VL [v_path (fst pb); VB (snd pb)]) s).
@@ -124,8 +125,8 @@ Definition e_sched (v : val) : val :=
   | _ => verr
   end.
 
-(* the file system after each executed command of a schedule (crash points 1..n) *)
-Fixpoint sched_states (chunk : nat) (sch : list nat) (s : fs) (ths : list disk_thread) : list fs :=
+(* the file system and the threads after each executed command of a schedule (crash points 1..n) *)
+Fixpoint sched_states (chunk : nat) (sch : list nat) (s : fs) (ths : list disk_thread) : list (fs * list disk_thread) :=
   match sch with
   | [] => []
   | i :: sch' =>
@@ -136,13 +137,15 @@ Fixpoint sched_states (chunk : nat) (sch : list nat) (s : fs) (ths : list disk_t
           | None => sched_states chunk sch' s ths
           | Some (c, k) =>
               let (s', a) := dexec s c in
-              s' :: sched_states chunk sch' s' (set_nth i (k a) ths)
+              let ths' := set_nth i (k a) ths in
+              (s', ths') :: sched_states chunk sch' s' ths'
           end
       end
   end.
 
 (* VL [VL threads; VL schedule; VL ids; VN chunk; init-fs]
-   -> VL [log; VL [recover at crash point 0 .. n]; threads at the end] *)
+   -> VL [log; VL [per crash point 0..n: VL [recover after a kill; recover after abort-with-unwinding;
+                                             VL [cleanup commands of each thread]]]; threads at the end] *)
 Definition e_crash_all (v : val) : val :=
   match v with
   | VL [VL ths; VL sch; ids; VN chunk; init] =>
@@ -153,7 +156,10 @@ Definition e_crash_all (v : val) : val :=
           let s0 := fs_v init in
           let '(s, ts', lg) := sched_log ch sc s0 ts in
           VL [VL (map (fun ic => VL [VN (N.of_nat (fst ic)); v_cmd (snd ic)]) lg);
-              VL (map (fun st => v_recover ch st (nums_v ids)) (s0 :: sched_states ch sc s0 ts));
+              VL (map (fun st => VL [v_recover ch (fst st) (nums_v ids);
+                                     v_recover ch (abort_all (fst st) (snd st)) (nums_v ids);
+                                     VL (map (fun th => VL (map v_cmd (th_cleanup th))) (snd st))])
+                      ((s0, ts) :: sched_states ch sc s0 ts));
               VL (map v_thread ts')]
       | None => verr
       end
